@@ -19,6 +19,7 @@ from .instruments import (
     Cancelled,
     InjectedError,
     InjectedTypeError,
+    Aw,
     Item,
     Node,
     Recorder,
@@ -92,7 +93,8 @@ class Twin:
 
 
 AGGREGATIONS = {"all", "any", "sum", "reduce", "min", "max", "list", "tuple", "set", "dict",
-                "sorted", "nlargest", "nsmallest"}
+                "sorted", "nlargest", "nsmallest", "apply", "sync"}
+NO_TWIN = {"any_iter", "await_each", "apply", "sync"}
 SENTINEL_KEY = 2
 NONE_I = -1
 
@@ -174,6 +176,24 @@ def build_call(L, tool, par, S, F, rec):
         fn = getattr(L, tool)
         kw = {"key": F("key")} if par["key"] else {}
         return lambda: fn(S[0], par["n"], **kw)
+    if tool == "any_iter":
+        if par["outer"]:
+            return lambda: L.any_iter(Aw(rec, S[0], Node("iterable")))
+        return lambda: L.any_iter(S[0])
+    if tool == "await_each":
+        return lambda: L.await_each(S[0])
+    if tool == "apply":
+        pos, kws = rec.apply_args
+        g = F("func")
+
+        def func(*a, **kw):  # the awaited keyword values arrive by name, in call order
+            if list(kw) != list(kws):
+                raise AssertionError(f"keyword names {list(kw)}")
+            return g(*a, *kw.values())
+
+        return lambda: L.apply(func, *pos, **kws)
+    if tool == "sync":
+        return lambda: L.sync(F("func"))(Item(1, 1, 1))
     raise KeyError(tool)
 
 
@@ -187,6 +207,9 @@ def fault_plan(case):
     if last["ev"] == "pull":
         who = last["src"]
         n = sum(1 for e in log if e["ev"] == "pull" and e["src"] == who)
+    elif last["ev"] == "await":
+        who = "aw"
+        n = sum(1 for e in log if e["ev"] == "await")
     else:
         who = last["f"]
         n = sum(1 for e in log if e["ev"] == "call" and e["f"] == who)
@@ -229,9 +252,17 @@ def execute(case, L, *, sync=False, flav=None, susp=0, fault_kind="exc", cancel_
         rec.fault_exc = {"exc": InjectedError, "typeerr": InjectedTypeError, "cancel": Cancelled}[fault_kind]("injected")
     src_flav = flav["src"]
     S, H = [], []
-    for i, keys in enumerate(data if tool != "iter" else [], start=1):
+    if tool == "apply":
+        rec.apply_args = ([Aw(rec, Item(1, p + 1, k)) for p, k in enumerate(data[0])],
+                          {f"k{p + 1}": Aw(rec, Item(2, p + 1, k)) for p, k in enumerate(data[1])})
+    for i, keys in enumerate(data if tool not in ("iter", "apply", "sync") else [], start=1):
         fl = "iter" if sync else (src_flav[i - 1] if isinstance(src_flav, (list, tuple)) else src_flav)
-        obj, h = make_source(fl, rec, i, _items_for(tool, i, keys))
+        if tool == "await_each":
+            fl = "iter"     # await_each takes a plain iterable of awaitables
+        items_ = _items_for(tool, i, keys)
+        if tool == "await_each" or (tool == "any_iter" and par["aw"]):
+            items_ = [Aw(rec, x) for x in items_]
+        obj, h = make_source(fl, rec, i, items_)
         S.append(obj)
         H.append(h)
     if tool == "chain" and par.get("outer"):
@@ -240,7 +271,7 @@ def execute(case, L, *, sync=False, flav=None, susp=0, fault_kind="exc", cancel_
         S.append(obj)
         H.append(h)
 
-    call_flav = "def" if sync else flav["call"]
+    call_flav = "def" if sync or tool == "apply" else flav["call"]
     made = {}
 
     def F(name):
